@@ -46,6 +46,9 @@ EmitState(t, p, f) ==
      /\ \A j \in sample : Emit(Case(t, "node", NodeSteps(t, f[j])))
      /\ (allPrim => Emit(Case(t, "value", Append(base, Field("value")))))
      /\ (n > 0 => Emit(Case(t, "badname", Append(base, Field("zzNoSuchElement")))))
+     \* the names under which google/fhir STORES a date/time primitive are no elements of it - on a time as little as on a date
+     /\ (allPrim /\ (\E j \in 1..n : NodeAt(TreeOf(t), f[j]).ty \in {"date", "dateTime", "instant", "time"})
+           => \A nm \in {"valueUs", "precision", "timezone"} : Emit(Case(t, "badname", Append(base, Field(nm)))))
      /\ \A nm \in AbsentNames(t, f) : Emit(Case(t, "absent", Append(base, Field(nm))))
      \* a focus of several types (resources in a Bundle, contained resources): a name that only some of the types have is an error
      /\ \A nm \in HeteroNames(t, f) : Emit(Case(t, "hetero", Append(base, Field(nm))))
